@@ -54,8 +54,45 @@ RATES += "PHASES\n Fix_pH\n H+ = H+\n log_k 0\n"
 SYS_ELTS = ["Na", "Ca", "Sr", "Mg", "K", "Cl", "C", "S", "N", "H", "O"]
 PUNCH = ("SELECTED_OUTPUT 1\n -reset false\n -high_precision true\nUSER_PUNCH 1\n -headings " + " ".join("sys_" + e for e in SYS_ELTS) +
          "\n 10 PUNCH " + ", ".join('SYS("%s")' % e for e in SYS_ELTS) + "\n")
+# CD-MUSIC definitions with charged master species (the form of the published goethite sets; the engine books the
+# reference charge of the master on plane 0), written in the input like any user extension of phreeqc.dat
+CDMUSIC_DEFS = """SURFACE_MASTER_SPECIES
+ Goe_uni Goe_uniOH-0.5
+ Goe_tri Goe_triO-0.5
+SURFACE_SPECIES
+ Goe_uniOH-0.5 = Goe_uniOH-0.5
+  -cd_music 0 0 0 0 0
+  log_k 0
+ Goe_uniOH-0.5 + H+ = Goe_uniOH2+0.5
+  -cd_music 1 0 0 0 0
+  log_k 9.2
+ Goe_uniOH-0.5 + Na+ = Goe_uniOHNa+0.5
+  -cd_music 0 1 0 0 0
+  log_k -1.0
+ Goe_uniOH-0.5 + H+ + Cl- = Goe_uniOH2Cl-0.5
+  -cd_music 1 -1 0 0 0
+  log_k 8.75
+ Goe_uniOH-0.5 + Ca+2 = Goe_uniOHCa+1.5
+  -cd_music 0 0 0 0.2 2
+  log_k 2.9
+ Goe_uniOH-0.5 + H+ + SO4-2 = Goe_uniOSO3-1.5 + H2O
+  -cd_music 0.5 -1.5 0 0 0
+  log_k 9.6
+ Goe_triO-0.5 = Goe_triO-0.5
+  -cd_music 0 0 0 0 0
+  log_k 0
+ Goe_triO-0.5 + H+ = Goe_triOH+0.5
+  -cd_music 1 0 0 0 0
+  log_k 9.2
+ Goe_triO-0.5 + Na+ = Goe_triONa+0.5
+  -cd_music 0 1 0 0 0
+  log_k -1.0
+ Goe_triO-0.5 + H+ + Cl- = Goe_triOHCl-0.5
+  -cd_music 1 -1 0 0 0
+  log_k 8.75
+"""
 INIT = {
-    "plain": RATES + PUNCH + """SOLUTION 1
+    "plain": RATES + CDMUSIC_DEFS + PUNCH + """SOLUTION 1
  temp 25
  pH 7.5
  Na 10
@@ -105,6 +142,8 @@ PHSTAT = {
     "pp:phstat-base": ("pp", "EQUILIBRIUM_PHASES 1\n Fix_pH -9.5 NaOH 10\n"),
     "pp:phstat-acid": ("pp", "EQUILIBRIUM_PHASES 1\n Fix_pH -4.0 HCl 10\n"),
 }
+# a CD-MUSIC surface (goethite set of two site types, defined in the input as in C10): its stored charge is spread over three planes
+PHSTAT["su:cd-music"] = ("su", "SURFACE 1\n -cd_music\n Goe_uni 0.0003 96 0.5\n Goe_tri 0.0002\n -capacitances 0.98 0.73\n -equilibrate 1\n")
 PHSTAT["ga:fixV-co2zero"] = ("ga", "GAS_PHASE 1\n -fixed_volume\n -volume 0.5\n -temperature 25\n CO2(g) 0\n N2(g) 0.5\n")      # lists a component with no moles
 PHSTAT["ga:fixP-co2zero"] = ("ga", "GAS_PHASE 1\n -fixed_pressure\n -pressure 1.0\n -volume 1.0\n -temperature 25\n CO2(g) 0\n N2(g) 1.0\n")
 KIN_STEPS = {"ki:calcite": 2, "ki:zero": 1}
@@ -469,7 +508,7 @@ def run_history(s, init, mode, ops, judge_from=None, dbname=DBNAME):
     last = None
     for i, op in enumerate(ops):
         if op in PHSTAT:
-            present.add("pp")
+            present.add(PHSTAT[op][0])
         if op in ATTACH:
             present.add(ATTACH[op][0])
             if ATTACH[op][0] == "ki":
